@@ -97,6 +97,8 @@ func genC15(g *gen) {
 			}
 			g.prog.Threads = append(g.prog.Threads, th)
 		}
+		// a thread that keeps reading manager / node state through the accessors
+		g.prog.Threads = append(g.prog.Threads, &Thread{Mgr: m, Ops: []*Op{{Kind: "inspect-loop", N: 200 + g.r.IntN(400), Cfg: g.r.IntN(8)}}})
 		if g.chance(0.3) {
 			g.prog.Faults = append(g.prog.Faults, &Fault{Kind: "close", Mgr: m, K: pick(g.r, 1, 2), AtStep: 100 + g.r.IntN(600)})
 		}
